@@ -26,6 +26,7 @@ type PropCfg struct {
 	Assumptions []string `json:"assumptions"`
 	Bounded     []string `json:"bounded"`
 	Explanation string   `json:"explanation"`
+	Level       string   `json:"level"` // evidence level (default proof); "other" for checks whose main part is a bounded stand-in
 	MinObls     int      `json:"min_obligations"`
 }
 
@@ -96,6 +97,13 @@ func splitQuoted(s string) []string {
 		out = append(out, cur.String())
 	}
 	return out
+}
+
+func levelOf(l string) string {
+	if l == "" {
+		return "proof"
+	}
+	return l
 }
 
 func main() {
@@ -429,7 +437,7 @@ func main() {
 		"exhaustive":               false,
 	}
 	ev := map[string]interface{}{
-		"property_id": *prop, "tier": *tier, "seed": seed, "level": "proof", "coverage": cov,
+		"property_id": *prop, "tier": *tier, "seed": seed, "level": levelOf(cfg.Level), "coverage": cov,
 		"assumptions": assumptions, "wall_s": time.Since(t0).Seconds(), "violations": violations,
 	}
 	if filter == nil && *prop != "" {
